@@ -16,7 +16,8 @@ From Verif Require Import Gen.GenReports Gen.GenGState Model.GState Proofs.GStat
 Import ListNotations.
 
 (* for every nesting and every outcome: depth, awaiting_stack, handlers_stack and every
-   is_awaiting flag are the same after as before ([gstate_eq] does not mention not_ready_yet: see below) *)
+   is_awaiting flag are the same after as before, and so is the height of found_cycles_stack
+   ([gstate_eq] does not mention not_ready_yet nor the content of the cycle memo: see below) *)
 Theorem C18_state_restored : forall p s, gstate_eq (g (snd (eval p s))) (g s).
 Proof. exact state_restored. Qed.
 Print Assumptions C18_state_restored.
@@ -46,18 +47,32 @@ Print Assumptions C18_outcome_is_function_of_state.
    speculation (depth 0; by C18_history_restored it stays 0 between runs once it is 0) -- in particular whatever the
    history left in try_compute.not_ready_yet does not matter  (partial: as far as the modelled state goes) *)
 Theorem C18_probe_after_history_partial : forall hist p s,
-  handlers (g s) = [] -> depth (g s) = 0%Z ->
+  handlers (g s) = [] -> depth (g s) = 0%Z -> awaiting (g s) = [] -> wf (g s) ->
   fst (eval p (run_all hist s)) = fst (eval p s) /\
   gstate_eq (g (snd (eval p (run_all hist s)))) (g s).
 Proof. exact probe_after_history. Qed.
 Print Assumptions C18_probe_after_history_partial.
 
+(* the cycle memo of class Awaiting (known_cycles, found_cycles_stack): [wf] = found_cycles_stack is as long as
+   awaiting_stack, known_cycles holds exactly the identities on the lists of found_cycles_stack, each once.
+   It is an invariant of every program, whatever its outcome ... *)
+Theorem C18_cycle_memo_invariant : forall p s, wf (g s) -> wf (g (snd (eval p s))).
+Proof. exact eval_wf. Qed.
+Print Assumptions C18_cycle_memo_invariant.
+
+(* ... so whenever nothing is being awaited -- between runs -- both structures are empty: no run can see what an
+   earlier run remembered *)
+Theorem C18_cycle_memo_empty_between_runs : forall hist s, wf (g s) -> awaiting (g s) = [] ->
+  kc (g (run_all hist s)) = [] /\ fcs (g (run_all hist s)) = [].
+Proof. exact cycle_memo_empty_between_runs. Qed.
+Print Assumptions C18_cycle_memo_empty_between_runs.
+
 (* try_compute.not_ready_yet is NOT restored (it keeps what the last speculation found not ready), but it is dead data
    outside a speculation: every read is guarded by depth > 0, and the only way to depth > 0 is __enter__ at depth 0,
    which replaces the dict.  So with depth <= 0 two runs that differ only in the leftover behave the same. *)
-Theorem C18_leftover_not_ready_irrelevant : forall p dp aw fl hs n1 n2 l,
+Theorem C18_leftover_not_ready_irrelevant : forall p dp aw fl hs n1 n2 k f l,
   (dp <= 0)%Z ->
-  fst (eval p (mk_mstate (mk_gstate dp aw fl hs n1) l)) = fst (eval p (mk_mstate (mk_gstate dp aw fl hs n2) l)).
+  fst (eval p (mk_mstate (mk_gstate dp aw fl hs n1 k f) l)) = fst (eval p (mk_mstate (mk_gstate dp aw fl hs n2 k f) l)).
 Proof. exact leftover_not_ready_irrelevant. Qed.
 Print Assumptions C18_leftover_not_ready_irrelevant.
 
@@ -99,6 +114,14 @@ Example C18_ex_not_ready_yet :
   nry (g (snd (eval once s0))) = [1%N] /\ fst (eval twice s0) = ONormal /\
   fst (eval (PWith CTry (PWait 1 (PRaise (EOther 5)) PEnd) PEnd) (snd (eval once s0))) = ORaise (EOther 5).
 Proof. vm_compute. repeat split; reflexivity. Qed.
+(* a value remembered as cyclic while d1 is awaited is refused at once inside that frame and forgotten when it ends *)
+Example C18_ex_cycle_memo :
+  let s0 := mk_mstate initial_gstate (fun _ => false) in
+  let inside := PWith (CAwait 1) (PRemember 2 (PWith (CAwait 2) (PRaise (EOther 4)) PEnd)) PEnd in
+  wf (g s0) /\ fst (eval inside s0) = ORaise EDeferredCycle /\ kc (g (snd (eval inside s0))) = [] /\
+  fst (eval (PCall inside (PWith (CAwait 2) (PRaise (EOther 4)) PEnd)) s0) = ORaise EDeferredCycle /\
+  fst (eval (PCall (PWith (CTry) inside PEnd) (PWith (CAwait 2) (PRaise (EOther 4)) PEnd)) s0) = ORaise (EOther 4).
+Proof. vm_compute. repeat split; try reflexivity; try constructor; intros []. Qed.
 Example C18_ex_latch :
   let p := PWith (CHandle 2 ObjNone) (PReport PError PEnd) PEnd in
   fst (eval p (mk_mstate initial_gstate (fun _ => false))) = ORaise EUnrecoverable /\
